@@ -60,6 +60,7 @@ EXTRA = [
     ("BinaryOp:row*par", {"cls": "py", "setup": "from optyx.core.parameters import Parameter\nx=VectorVariable('v',3)\np=Parameter('p',1.5)",
                           "expr": "x.dot(x) * p"}),
     ("MatrixSum|MatrixVariable", {"cls": "py", "setup": "from optyx.core.matrices import MatrixSum\nX=MatrixVariable('X',2,2)", "expr": "MatrixSum(X)"}),
+    ("MatrixSum|symmetric", {"cls": "py", "setup": "from optyx.core.matrices import MatrixSum\nS=MatrixVariable('S',2,2,symmetric=True)", "expr": "MatrixSum(S)"}),
     ("MatrixSum|MatrixExpression", {"cls": "py", "setup": "from optyx.core.matrices import MatrixSum\nX=MatrixVariable('X',2,2)", "expr": "MatrixSum(2*X)"}),
     ("QuadraticForm|sym", {"cls": "QuadraticForm", "vector": {"cls": "VectorVariable", "name": "v", "vars": [{"cls": "Variable", "name": f"v[{i}]"} for i in range(3)]},
                            "matrix": [[2.0, 1.0, 0.0], [1.0, 3.0, -1.0], [0.0, -1.0, 1.0]]}),
